@@ -1,7 +1,9 @@
+import Driver.Drv.BlockMgr
 import Driver.Drv.Lru
 namespace Driver
 
 def drivers : List (String × CaseFn) := [
+  ("blockmgr", Driver.Drv.BlockMgr.runCase),
   ("lru", Driver.Drv.Lru.runCase)]
 
 end Driver
